@@ -591,6 +591,17 @@ func (g *flGen) genPrio() PriorityParam {
 	return p
 }
 
+// illegalDep makes p's dependency illegal (reserved bit set) now and then, for
+// typed writes only: WriteHeaders / WritePriority refuse it, and a refused write
+// must leave nothing behind for the next frame.
+func (g *flGen) illegalDep(p PriorityParam, raw bool) PriorityParam {
+	if !raw && vs.Pct(g.c, 6) {
+		p.StreamDep |= 1 << 31
+		vs.G.Inc("probe.illegal_stream_dependency")
+	}
+	return p
+}
+
 // genBlockFrames emits HEADERS or PUSH_PROMISE followed by its CONTINUATION frames.
 func (g *flGen) genBlockFrames(typ FrameType) {
 	c := g.c
@@ -628,7 +639,9 @@ func (g *flGen) genBlockFrames(typ FrameType) {
 			s.flags |= FlagHeadersEndStream
 		}
 		if vs.Pct(c, 40) {
-			s.prio = g.genPrio()
+			// (not with a real HPACK block: its encoder state would run ahead of a
+			// decoder that never sees the refused block)
+			s.prio = g.illegalDep(g.genPrio(), s.raw || real)
 			s.hasPrio = s.raw || !s.prio.IsZero()
 			if s.hasPrio {
 				s.flags |= FlagHeadersPriority
@@ -639,6 +652,10 @@ func (g *flGen) genBlockFrames(typ FrameType) {
 		s.flags |= flExtra(c, s.raw, FlagHeadersEndStream|FlagHeadersEndHeaders|FlagHeadersPadded|FlagHeadersPriority)
 	} else {
 		s.promise = g.streamID()
+		if !s.raw && !real && vs.Pct(c, 6) {
+			s.promise = uint32(vs.Pick(c, 0, 1<<31, 1<<31|5)) // refused by WritePushPromise
+			vs.G.Inc("probe.illegal_promise_id")
+		}
 		s.rbit = s.raw && vs.Bool(c)
 		s.flags |= flExtra(c, s.raw, FlagPushPromiseEndHeaders|FlagPushPromisePadded)
 	}
